@@ -2,10 +2,6 @@
 
 package agreement
 
-import (
-	vr "github.com/algorand/go-algorand/internal/verifrt"
-)
-
 // C03 (bundle side): the certificate a node commits with is the bundle the
 // cert-step vote tracker generated.  The player-level C03 harnesses take that
 // bundle as given; this harness closes the gap by running the C06 bounded model
@@ -24,5 +20,5 @@ import (
 
 //verif:harness prop=C03 reach=done,fired,duplicate,equivocation unwind=12 budget=450 thorough.budget=3000
 func VerifC03CertBundleFromTracker() {
-	verifC06Counting(cert, vr.Param(5, 6), verifC06Senders, true)
+	verifC06Counting(cert, 5, verifC06Senders, true)
 }
